@@ -11,6 +11,7 @@ import (
 	"path/filepath"
 	"runtime"
 	"runtime/debug"
+	"strings"
 	"sync"
 	"sync/atomic"
 	"time"
@@ -266,9 +267,27 @@ func init() {
 			fmt.Sprintf("%s/view-raw?file=%s&retention=9", base, url.QueryEscape(rel)),
 			fmt.Sprintf("%s/sum?item=%s&pattern=%s&retention=5&from=%s&until=%s&now=%s", base, url.QueryEscape(dir), url.QueryEscape("*"), ts(0), ts(now), ts(now)),
 			fmt.Sprintf("%s/sum?item=%s&pattern=%s&retention=zz&from=%s&until=%s&now=%s", base, url.QueryEscape(dir), url.QueryEscape("*"), ts(0), ts(now), ts(now)),
+			// the same item, pattern, archive and window asked with different clocks (the clamp of the
+			// window depends on the clock): every request is answered for its own clock
+			fmt.Sprintf("%s/sum?item=%s&pattern=%s&retention=-1&from=%s&until=%s&now=%s", base, url.QueryEscape(dir), url.QueryEscape("*"), ts(0), ts(now.Add(-4)), ts(now)),
+			fmt.Sprintf("%s/sum?item=%s&pattern=%s&retention=-1&from=%s&until=%s&now=%s", base, url.QueryEscape(dir), url.QueryEscape("*"), ts(0), ts(now.Add(-4)), ts(now.Add(-4))),
+			fmt.Sprintf("%s/view?file=%s&retention=-1&from=%s&until=%s&now=%s", base, url.QueryEscape(rel), ts(0), ts(now.Add(-4)), ts(now.Add(-4))),
+			fmt.Sprintf("%s/view?file=%s&retention=-1&from=%s&until=%s&now=%s", base, url.QueryEscape(rel), ts(0), ts(now.Add(-4)), ts(now)),
+			// parameters sent in a form body (the raw query is the same -- empty -- for all of them)
+			"POST " + base + "/sum " + fmt.Sprintf("item=%s&pattern=%s&retention=-1&from=%s&until=%s&now=%s", url.QueryEscape(dir), url.QueryEscape("*"), ts(0), ts(now), ts(now)),
+			"POST " + base + "/sum " + fmt.Sprintf("item=%s&pattern=%s&retention=-1&from=%s&until=%s&now=%s", url.QueryEscape(dir), url.QueryEscape(filepath.Base(rel)), ts(0), ts(now), ts(now)),
+			"POST " + base + "/sum " + fmt.Sprintf("item=%s&pattern=%s&retention=0&from=%s&until=%s&now=%s", url.QueryEscape(dir), url.QueryEscape("*"), ts(now.Add(-6)), ts(now), ts(now)),
+			"POST " + base + "/view " + fmt.Sprintf("file=%s&retention=0&from=%s&until=%s&now=%s", url.QueryEscape(rel), ts(now.Add(-6)), ts(now), ts(now)),
 		}
 		get := func(u string) string {
-			resp, err := http.Get(u)
+			var resp *http.Response
+			var err error
+			if strings.HasPrefix(u, "POST ") {
+				f := strings.SplitN(u, " ", 3)
+				resp, err = http.Post(f[1], "application/x-www-form-urlencoded", strings.NewReader(f[2]))
+			} else {
+				resp, err = http.Get(u)
+			}
 			if err != nil {
 				return "transport:" + err.Error()
 			}
@@ -279,6 +298,14 @@ func init() {
 		seq := make([]string, len(urls))
 		for i, u := range urls {
 			seq[i] = get(u)
+		}
+		// the file is kept locked while the concurrent requests arrive, so that they are all in flight
+		// (waiting inside their handlers) at the same time
+		if hold, err := wt.Open(f.path); err == nil {
+			go func() {
+				time.Sleep(300 * time.Millisecond)
+				hold.Close()
+			}()
 		}
 		var wg sync.WaitGroup
 		var bad int32
